@@ -1,24 +1,394 @@
-"""C01 stream conservation."""
+"""C01 stream conservation: handed back ++ pending == received, at every step.
+
+Inductive form: every step of every expect-family call (existing_data at the start of a
+call, new_data per read, eof/timeout/errored at its end, the buffer setter between
+calls) is run from an ARBITRARY state satisfying the representation invariant INV0
+(pending text P, search buffer any suffix of P, stream positions at the end) with
+arbitrary arguments; it must preserve `before+after+pending' == pending (+data)` and
+INV0.  Histories of any length follow by induction; small public-API obligations
+cross-check the composition.
+"""
 from symx.spec import obligation, Text, Bytes, Int, OptInt, Bool, SKIP
-from harness.common import state_spawn
-from pexpect.expect import Expecter, searcher_string
+from symx.bstr import lit, tracing
+from harness.common import (state_spawn, inv0, pending, AbsSearcher, AbsPat, LitPat, EndPat, Skip,
+                            ScriptedSpawn, frozen_time, empty)
+from pexpect.expect import Expecter, searcher_string, searcher_re
+from pexpect.exceptions import EOF, TIMEOUT
+import pexpect.spawnbase as SB
+import pexpect.expect as E
 
-ENCODES = ['pexpect.expect.Expecter.new_data', 'pexpect.expect.Expecter.do_search',
-           'pexpect.expect.searcher_string.search']
+ENCODES = ['pexpect.expect.Expecter.existing_data', 'pexpect.expect.Expecter.new_data',
+           'pexpect.expect.Expecter.do_search', 'pexpect.expect.Expecter.eof',
+           'pexpect.expect.Expecter.timeout', 'pexpect.expect.Expecter.errored',
+           'pexpect.expect.Expecter.expect_loop',
+           'pexpect.expect.searcher_string.search', 'pexpect.expect.searcher_re.search',
+           'pexpect.spawnbase.SpawnBase._set_buffer', 'pexpect.spawnbase.SpawnBase._get_buffer',
+           'pexpect.spawnbase.SpawnBase.expect_exact', 'pexpect.spawnbase.SpawnBase.expect_list',
+           'pexpect.spawnbase.SpawnBase.readline', 'pexpect.spawnbase.SpawnBase.read']
+STUBS = ['AbsSearcher: any searcher obeying the contract (miss, or 0<=start<=end<=len(window))',
+         'AbsPat: compiled pattern whose search() returns None or any span with pos<=start<=end<=len(buffer)',
+         'LitPat/EndPat: exact models of an escape-free literal and of \\Z',
+         'ScriptedSpawn.read_nonblocking: scripted transport (documented extension point)',
+         'pexpect.expect.time: frozen integer clock',
+         'io.StringIO/BytesIO -> symx.bstr.PyBuf (validated against io.* each run)']
+ASSUMPTIONS = ['A2: CPython re.search(buf,pos) returns a span with pos<=start<=end<=len(buf)',
+               'strings longer than the stated caps are outside the claim',
+               'CrossHair/z3 soundness; BStr encoding validated by exhaustive differential']
+OUTSIDE = ['read(size>0) return value when a search window smaller than the pending text is in force']
 
 
-@obligation(params=dict(P=Text(4), cut=Int(0, 4), D=Text(3), s=Text(2, min=1), W=OptInt(1, 5)),
-            tags={2: 'match', 3: 'miss'}, timeout=120)
-def L3_new_data_exact(P, cut, D, s, W):
+def _match_ok(sp, total, sr_start, sr_end, window):
+    """on a match: before+after+buffer == total, pending' == buffer', after == window[start:end]"""
+    if not (sp.after == window[sr_start:sr_end]):
+        return False
+    if not (sp.before + sp.after + sp.buffer == total):
+        return False
+    if not (pending(sp) == sp.buffer):
+        return False
+    return inv0(sp, sp.buffer)
+
+
+def _mk_L1(kind, S):
+    @obligation(params=dict(P=S(5), cut=Int(0, 5), W=OptInt(1, 6), lb=Int(0, 3), hit=Bool(), a=Int(), b=Int()),
+                tags={2: 'match', 3: 'miss', 4: 'zero-width match at the very end of a window shorter than pending',
+                      5: 'match, window rebuilt from pending text'},
+                timeout=150, tiers=('quick', 'thorough') if kind == 't' else ('thorough',),
+                note='existing_data from any INV0 state, any searcher obeying the contract')
+    def L1(P, cut, W, lb, hit, a, b):
+        if cut > len(P):
+            return SKIP
+        sp = state_spawn(P, cut, W, kind)
+        sr = AbsSearcher(hit, a, b, lb)
+        ex = Expecter(sp, sr, -1)
+        try:
+            idx = ex.existing_data()
+        except Skip:
+            return SKIP
+        if idx is None:
+            if hit:
+                return 0
+            return 3 if inv0(sp, P) else 0
+        window = sr.calls[0][0]
+        if not _match_ok(sp, P, a, b, window):
+            return 0
+        if sp.match != 'MATCH-OBJECT' or sp.match_index != 0:
+            return 0
+        if a == len(window) and len(window) < len(P):
+            return 4
+        if cut > 0 and len(window) > len(P) - cut:
+            return 5
+        return 2
+    L1.__name__ = 'L1_existing_abs_' + kind
+    L1.obligation.name = L1.__name__
+    return L1
+
+
+def _mk_L2(kind, S):
+    @obligation(params=dict(P=S(4), cut=Int(0, 4), D=S(3), W=OptInt(1, 5), lb=Int(0, 3), hit=Bool(), a=Int(), b=Int()),
+                tags={2: 'match', 3: 'miss', 4: 'zero-width match at the end', 6: 'miss, buffer trimmed'},
+                timeout=150, tiers=('quick', 'thorough') if kind == 't' else ('thorough',),
+                note='new_data(D) from any INV0 state, any searcher obeying the contract')
+    def L2(P, cut, D, W, lb, hit, a, b):
+        if cut > len(P):
+            return SKIP
+        sp = state_spawn(P, cut, W, kind)
+        sr = AbsSearcher(hit, a, b, lb)
+        ex = Expecter(sp, sr, -1)
+        try:
+            idx = ex.new_data(D)
+        except Skip:
+            return SKIP
+        total = P + D
+        if idx is None:
+            if hit:
+                return 0
+            if not inv0(sp, total):
+                return 0
+            return 6 if len(sp.buffer) < len(P) - cut + len(D) else 3
+        window = sr.calls[0][0]
+        if not _match_ok(sp, total, a, b, window):
+            return 0
+        if a == len(window):
+            return 4
+        return 2
+    L2.__name__ = 'L2_new_abs_' + kind
+    L2.obligation.name = L2.__name__
+    return L2
+
+
+for _k, _S in (('t', Text), ('b', Bytes)):
+    for _mkf in (_mk_L1, _mk_L2):
+        _f = _mkf(_k, _S)
+        globals()[_f.__name__] = _f
+
+
+@obligation(params=dict(P=Text(4), cut=Int(0, 4), D=Text(3), s1=Text(2, min=1), s2=Text(3, min=1), W=OptInt(1, 5),
+                        fresh=Bool()),
+            tags={2: 'match via new_data', 3: 'miss', 4: 'match via existing_data'}, timeout=400,
+            note='real searcher_string with two symbolic patterns')
+def L3_exact(P, cut, D, s1, s2, W, fresh):
     if cut > len(P):
         return SKIP
     sp = state_spawn(P, cut, W)
-    ex = Expecter(sp, searcher_string([s]), -1)
-    idx = ex.new_data(D)
+    sr = searcher_string([s1, s2])
+    ex = Expecter(sp, sr, -1)
+    if fresh:
+        idx = ex.new_data(D)
+        total = P + D
+    else:
+        idx = ex.existing_data()
+        total = P
     if idx is None:
-        if sp._before.getvalue() == P + D:
-            return 3
+        return 3 if inv0(sp, total) else 0
+    if idx != 0 and idx != 1:
         return 0
-    if (sp.before + sp.after + sp.buffer == P + D) and sp.after == s and sp._before.getvalue() == sp.buffer:
-        return 2
-    return 0
+    pat = s1 if idx == 0 else s2
+    if not (sp.after == pat) or not (sp.match == pat) or sp.match_index != idx:
+        return 0
+    if not (sp.before + sp.after + sp.buffer == total) or not (pending(sp) == sp.buffer):
+        return 0
+    if not inv0(sp, sp.buffer):
+        return 0
+    return 2 if fresh else 4
+
+
+@obligation(params=dict(P=Text(4), cut=Int(0, 4), D=Text(3), W=OptInt(1, 5), fresh=Bool(),
+                        h1=Bool(), a1=Int(), b1=Int(), h2=Bool(), a2=Int(), b2=Int(), zw=Bool()),
+            tags={2: 'match', 3: 'miss', 4: 'end-anchor (zero-width) match'}, timeout=400,
+            note='real searcher_re over two abstract compiled patterns (any spans) or a \\Z anchor')
+def L3_regex(P, cut, D, W, fresh, h1, a1, b1, h2, a2, b2, zw):
+    if cut > len(P):
+        return SKIP
+    sp = state_spawn(P, cut, W)
+    p2 = EndPat() if zw else AbsPat(h2, a2, b2)
+    sr = searcher_re([AbsPat(h1, a1, b1), p2])
+    ex = Expecter(sp, sr, -1)
+    try:
+        if fresh:
+            idx = ex.new_data(D)
+            total = P + D
+        else:
+            idx = ex.existing_data()
+            total = P
+    except Skip:
+        return SKIP
+    if idx is None:
+        if h1 or zw or h2:
+            return 0
+        return 3 if inv0(sp, total) else 0
+    if not (sp.before + sp.after + sp.buffer == total) or not (pending(sp) == sp.buffer):
+        return 0
+    if not inv0(sp, sp.buffer):
+        return 0
+    if len(sp.after) != sr.end - sr.start:
+        return 0
+    if zw and idx == 1:
+        return 4
+    return 2
+
+
+@obligation(params=dict(P=Text(5), cut=Int(0, 5), W=OptInt(1, 6), which=Int(0, 2), mark=Int(-1, 2)),
+            tags={2: 'eof returns index', 3: 'eof raises', 4: 'timeout returns index', 5: 'timeout raises', 6: 'errored'},
+            timeout=60, note='end-of-call steps from any INV0 state')
+def L4_end_steps(P, cut, W, which, mark):
+    if cut > len(P):
+        return SKIP
+    sp = state_spawn(P, cut, W)
+    B0 = sp.buffer
+    sr = AbsSearcher(False, 0, 0)
+    sr.eof_index = mark
+    sr.timeout_index = mark
+    ex = Expecter(sp, sr, -1)
+    if which == 0:
+        try:
+            r = ex.eof()
+        except EOF:
+            if mark >= 0:
+                return 0
+            ok = sp.before == P and len(pending(sp)) == 0 and len(sp.buffer) == 0 and sp.after is EOF \
+                and sp.match is None and sp.match_index is None
+            return 3 if ok else 0
+        if mark < 0 or r != mark:
+            return 0
+        ok = sp.before == P and len(pending(sp)) == 0 and len(sp.buffer) == 0 and sp.after is EOF \
+            and sp.match is EOF and sp.match_index == mark
+        return 2 if ok else 0
+    if which == 1:
+        try:
+            r = ex.timeout()
+        except TIMEOUT:
+            if mark >= 0:
+                return 0
+            ok = sp.before == P and inv0(sp, P) and sp.buffer == B0 and sp.after is TIMEOUT \
+                and sp.match is None and sp.match_index is None
+            return 5 if ok else 0
+        if mark < 0 or r != mark:
+            return 0
+        ok = sp.before == P and inv0(sp, P) and sp.buffer == B0 and sp.after is TIMEOUT \
+            and sp.match is TIMEOUT and sp.match_index == mark
+        return 4 if ok else 0
+    ex.errored()
+    ok = sp.before == P and inv0(sp, P) and sp.buffer == B0 and sp.after is None and sp.match is None \
+        and sp.match_index is None
+    return 6 if ok else 0
+
+
+@obligation(params=dict(P=Text(4), cut=Int(0, 4), V=Text(4), W=OptInt(1, 5), lb=Int(0, 3)),
+            tags={2: 'window is the assigned text', 3: 'window is its last W characters'}, timeout=90,
+            note='buffer setter: the next call sees exactly the assigned text as pending')
+def L5_setter(P, cut, V, W, lb):
+    if cut > len(P):
+        return SKIP
+    sp = state_spawn(P, cut, W)
+    sp.buffer = V
+    if not (sp.buffer == V):
+        return 0
+    sr = AbsSearcher(False, 0, 0, lb)
+    sr.timeout_index = 0
+    ex = Expecter(sp, sr, -1)
+    if ex.existing_data() is not None:
+        return 0
+    window = sr.calls[0][0]
+    region = V if W is None else V[-W:]
+    if not (window == region):
+        return 0
+    ex.timeout()
+    if not (sp.before == V):
+        return 0
+    if not inv0(sp, V):
+        return 0
+    return 2 if W is None or W >= len(V) else 3
+
+
+def _lit_pat(s):
+    if tracing():
+        return LitPat(s)
+    import re
+    return re.compile(re.escape(s), re.DOTALL)
+
+
+def _end_pat():
+    if tracing():
+        return EndPat()
+    import re
+    return re.compile(r'\Z')
+
+
+@obligation(params=dict(S=Text(3), c1=Int(0, 3), s=Text(2, min=1), W1=OptInt(1, 2), W2=OptInt(1, 2),
+                        end1=Int(0, 1), kind2=Int(0, 2)),
+            tags={2: 'two calls, first matched', 3: 'first call TIMEOUT then second call', 4: 'first call EOF'},
+            timeout=400, split=('end1', 'kind2'),
+            thorough=dict(params=dict(S=Text(4), c1=Int(0, 4), W1=OptInt(1, 3), W2=OptInt(1, 3)),
+                          split=('end1', 'kind2', 'W1'), timeout=600),
+            note='public API: expect_exact then a second call (exact / literal regex / \\Z) with another window; '
+                 'telescoping identity over both calls; stream cut into 2 reads at a symbolic position')
+def L6_two_calls(S, c1, s, W1, W2, end1, kind2):
+    if c1 > len(S):
+        return SKIP
+    D1, D2 = S[:c1], S[c1:]
+    script = [('data', D1), ('data', D2), ('eof',) if end1 else ('timeout',)]
+    sp = ScriptedSpawn(script)
+    handed = lit('')
+    with frozen_time():
+        i = sp.expect_exact([s, EOF, TIMEOUT], timeout=5, searchwindowsize=W1 if W1 is not None else -1)
+        if i == 0:
+            handed = sp.before + sp.after
+            tag = 2
+        elif i == 1:
+            # EOF: before is everything, nothing pending
+            if not (sp.before == S) or len(sp.buffer) != 0:
+                return 0
+            return 4
+        else:
+            # TIMEOUT consumes nothing
+            if not (sp.before == S):
+                return 0
+            tag = 3
+        # second call, other window, other kind of search
+        sp.searchwindowsize = W2
+        if kind2 == 0:
+            j = sp.expect_exact([s, EOF, TIMEOUT], timeout=5)
+        elif kind2 == 1:
+            j = sp.expect_list([_lit_pat(s), EOF, TIMEOUT], timeout=5)
+        else:
+            j = sp.expect_list([_end_pat(), EOF, TIMEOUT], timeout=5)
+    got = sp.reads
+    received = S if got >= 2 else D1
+    if got >= 3 and not end1:
+        pass
+    if j == 0:
+        handed = handed + sp.before + sp.after
+        rest = sp.buffer
+    else:
+        rest = sp.before
+        if j == 1 and len(sp.buffer) != 0:
+            return 0
+    if not (handed + rest == received):
+        return 0
+    return tag
+
+
+@obligation(params=dict(S=Text(5), c1=Int(0, 5), how=Int(0, 2)),
+            tags={2: 'readline pieces', 3: 'read(-1)', 4: 'readlines'}, timeout=280, split=('how',),
+            note='readline/readlines/iteration/read(-1): returned pieces concatenate to the stream (2 reads then EOF)')
+def L7_lines(S, c1, how):
+    if c1 > len(S):
+        return SKIP
+    sp = ScriptedSpawn([('data', S[:c1]), ('data', S[c1:]), ('eof',)])
+    sp.timeout = 5
+    out = lit('')
+    with frozen_time(), _fake_re():
+        if how == 0:
+            n = 0
+            while n < 7:
+                line = sp.readline()
+                if not line:
+                    break
+                out = out + line
+                n += 1
+            if n >= 7:
+                return 0
+            tag = 2
+        elif how == 1:
+            out = sp.read()
+            tag = 3
+        else:
+            for line in sp.readlines():
+                out = out + line
+            tag = 4
+    if not (out == S):
+        return 0
+    if len(sp.buffer) != 0:
+        return 0
+    return tag
+
+
+class _FakePattern:
+    pass
+
+
+class _FakeRe:
+    """re stand-in for escape-free literals (what readline/read compile)."""
+    import re as _re
+    DOTALL = _re.DOTALL
+    IGNORECASE = _re.IGNORECASE
+
+    class _P(LitPat, _FakePattern):
+        pass
+
+    def compile(self, p, flags=0):
+        pat = LitPat(p)
+        pat.flags = flags
+        return pat
+
+
+class _fake_re:
+    def __enter__(self):
+        self.old = SB.re
+        if tracing():
+            SB.re = _FakeRe()
+        return self
+
+    def __exit__(self, *a):
+        SB.re = self.old
+        return False
